@@ -21,44 +21,79 @@ def gen_scenario(rnd, sid, ndev, nsteps):
         # after the connection event / on SetReaderConfig) before the one that works
         if rnd.random() < 0.35:
             steps.append("%d+%s" % (d, rnd.choice(CONN_MODES)))
-    for _ in range(nsteps):
+        # some readers start talking before the connection is set up: reports/events before the
+        # answer to GetSupportedVersion (a), between the two negotiation answers (b), before the
+        # answer to the device's own SetReaderConfig (c)
+        if rnd.random() < 0.35:
+            for _ in range(rnd.randrange(1, 4)):
+                steps.append("%d@%s%s%d" % (d, rnd.choice("abc"), rnd.choice("RRREEre"), rnd.randrange(7)))
+    removed, reconnects = None, 0
+    for k in range(nsteps):
         d = rnd.randrange(ndev)
+        if d == removed:
+            continue
         x = rnd.random()
-        if x < 0.40:
+        if x < 0.38:
             steps.append("%dR%d" % (d, rnd.randrange(7)))
-        elif x < 0.66:
+        elif x < 0.62:
             steps.append("%dE%d" % (d, rnd.randrange(7)))
-        elif x < 0.74:
+        elif x < 0.70:
             steps.append("%dr%d" % (d, rnd.randrange(3)))
-        elif x < 0.80:
+        elif x < 0.76:
             steps.append("%de%d" % (d, rnd.randrange(3)))
-        elif x < 0.87:
+        elif x < 0.82:
             steps.append("%dK" % d)
-        elif x < 0.93:
+        elif x < 0.87:
             # a request whose deadline passes while the reader answers slowly / in pieces / never
             steps.append("%dT%d" % (d, rnd.randrange(5)))
-        else:
+        elif x < 0.93:
             steps.append("%dC%d" % (d, rnd.randrange(5)))
+        elif x < 0.97:
+            # EdgeX updates the device: same address, or (a few times) the other address
+            if rnd.random() < 0.4 and reconnects < 3:
+                reconnects += 1
+                steps.append("%dU1" % d)
+            else:
+                steps.append("%dU0" % d)
+        elif x < 0.99:
+            if reconnects < 3:          # outage: the connection goes away, the device reconnects
+                reconnects += 1
+                steps.append("%dX" % d)
+        elif ndev >= 2 and removed is None and k > nsteps // 3:
+            removed = d                 # one device is removed while the others go on
+            steps.append("%dZ" % d)
     return "%d %d %d %s" % (sid, ndev, rnd.getrandbits(30), " ".join(steps))
 
 
 def expected_tokens(scn):
     """the property, from the script alone: one reading per decodable report/event, under the
-    sending device's name and the type's resource, plus each device's connection event"""
+    sending device's name and the type's resource, plus the connection event of every planned connection"""
     f = scn.split()
     ndev = int(f[1])
     exp = []
+    nconn = {}
     for d in range(ndev):
         modes = ""
         for st in f[3:]:
             if st[1] == "+" and int(st[0]) == d:
                 modes = st[2:]
-        exp += ["%d:REN:%d" % (d, 2000 + 100 * d + n) for n in range(len(modes) + 1)]
+        nconn[d] = len(modes) + 1
+        exp += ["%d:REN:%d" % (d, 2000 + 100 * d + n) for n in range(nconn[d])]
+    removed = set()
     for i, st in enumerate(f[3:]):
-        if st[1] in "RM":
-            exp.append("%s:RO:%d" % (st[0], i))
-        elif st[1] == "E":
-            exp.append("%s:REN:%d" % (st[0], i))
+        d = int(st[0])
+        if d in removed:
+            continue
+        kind = st[3] if st[1] == "@" else st[1]
+        if kind in "RM":
+            exp.append("%d:RO:%d" % (d, i))
+        elif kind == "E":
+            exp.append("%d:REN:%d" % (d, i))
+        elif kind == "X" or (kind == "U" and int(st[2:]) % 2 == 1):
+            exp.append("%d:REN:%d" % (d, 2000 + 100 * d + nconn[d]))
+            nconn[d] += 1
+        elif kind == "Z":
+            removed.add(d)
     return exp
 
 
@@ -140,14 +175,16 @@ def run(tier, seed, replay=None):
         scns = ["0 2 11 0R1 1E1 0r0 1K 0C0 1E4 0R2 1e1 0E6 1R3",
                 "3 2 14 0+s 1+x 0R1 1R1 0T1 0R2 1T4 1E0 0T2 0E2 1T3 1R3 0T0 0R4",
                 "4 3 15 0+ys 1+xy 2+sx 0E1 1R3 2R5 0T4 1T1 2T2 0R3 1E6 2E1 0K 1K 2C0 0R1 1R2 2R6",
+                "5 2 18 0@aR1 0@aE0 0@bR2 0@cE3 1@ar0 1@aR3 1@cR4 0R5 1R6 0E1 1E2",
+                "6 3 19 0R1 0r0 0R2 0U0 0R3 0E1 1R1 1r1 1U1 1R2 1E0 2R1 2r2 2X 2R2 2E3 1Z 0R4 2R5 0X 0R6 0e0 0U0 0E2",
                 "2 2 13 0R1 1M 0C0 0R2 1L 1R3 0E0 1R4 0K 1E1",
                 "1 3 12 " + " ".join("%d%s%d" % (d, k, v) for v in range(7) for k in "RE" for d in range(3))]
         n = 1500 if thorough else 300
         if thorough:
             # the deadlines of the service itself (20 s): a command through the driver whose reply comes
             # in two pieces 21 s apart, and a SetReaderConfig that is never answered
-            scns += ["5 2 16 0R1 1R1 0T9 1E0 0R2 0E3 1R4", "6 2 17 0+w 0R1 1R1 0E1 1E2 0R3"]
-        for sid in range(7, n):
+            scns += ["7 2 16 0R1 1R1 0T9 1E0 0R2 0E3 1R4", "8 2 17 0+w 0R1 1R1 0E1 1E2 0R3"]
+        for sid in range(9, n):
             ndev = rnd.choice([2, 2, 3, 3, 1])
             nsteps = rnd.choice([8, 20, 40, 80] + ([200, 400] if thorough else []))
             scn = gen_scenario(rnd, sid, ndev, nsteps)
@@ -252,10 +289,11 @@ def run(tier, seed, replay=None):
         lines, olines = lines + l2_, olines[:head] + o2_
 
     def model_differs(g, o):
-        ot = sorted(o.split(" | ")[0].split()[1:])
-        planned = set(ot)
-        gt = sorted(t for t in g.split(" | ")[0].split()[1:] if not t.startswith("!badgen")
-                    and not (re.match(r"^\d:REN:2\d\d\d$", t) and t not in planned))
+        # connection events are judged against what the readers really sent (judge); the comparison
+        # with the model is about the messages of the script
+        conn = re.compile(r"^\d:REN:2\d\d\d$")
+        ot = sorted(t for t in o.split(" | ")[0].split()[1:] if not conn.match(t))
+        gt = sorted(t for t in g.split(" | ")[0].split()[1:] if not t.startswith("!badgen") and not conn.match(t))
         return gt != ot or "expected_ok=1" not in o or "pending=0" not in o
 
     evals = msgs = 0
@@ -265,7 +303,8 @@ def run(tier, seed, replay=None):
     for s, g, o in zip(scns, lines, olines):
         evals += 1
         f = s.split()
-        kinds = collections.Counter(st[1] for st in f[3:])
+        kinds = collections.Counter((st[3] if st[1] == "@" else st[1]) for st in f[3:])
+        dist.update({"early": sum(1 for st in f[3:] if st[1] == "@")})
         dist.update({"devices=%s" % f[1]: 1})
         dist.update(kinds)
         msgs += kinds["R"] + kinds["E"] + kinds["r"] + kinds["e"] + kinds["M"] + kinds["L"] + int(f[1]) + sum(len(st) - 2 for st in f[3:] if st[1] == "+")
@@ -278,6 +317,9 @@ def run(tier, seed, replay=None):
         m = re.search(r"acks=(\d+)/(\d+) cmds=(\d+)/(\d+)", g)
         if m and (m.group(1) != m.group(2) or m.group(3) != m.group(4)):
             notes["acks-or-commands-incomplete"] += 1
+        m = re.search(r"stuck=(\d+) noreconnect=(\d+)", g)
+        if m and (m.group(1) != "0" or m.group(2) != "0"):
+            notes["update/remove did not return in 3 s or no reconnect in 6 s"] += 1
         if g in ("!crash", "!crash-not-examined"):
             continue
         if judge(s, g) or model_differs(g, o):
